@@ -377,6 +377,80 @@ def sched_part(ctx, sigs):
     ctx.extra['sched_schedules'] = total
 
 
+def special_states_part(ctx, sigs):
+    """State shapes the enumerated variants do not have: a state dict which is itself shared with other parts of the graph, and a
+    child without any remote state (None) below a patched parent."""
+    import pyworkers.remote_pickle as rp
+
+    g = G.__dict__
+    if 'ShEndpoint' not in g:
+        def ep_get(self, remote=False):
+            return self.opts                       # the very dictionary other objects refer to as well
+        def ep_set(self, st):
+            self.opts = st
+        def svc_get(self, remote=False):
+            return dict(self.__dict__)
+        def svc_set(self, st):
+            self.__dict__.update(st)
+        def none_get(self, remote=False):
+            return None                            # nothing to transmit
+        for name, ns in (('ShEndpoint', {'__getstate__': ep_get, '__setstate__': ep_set}), ('ShService', {'__getstate__': svc_get, '__setstate__': svc_set}),
+                         ('ShStateless', {'__getstate__': none_get})):
+            c = type(name, (rp.SupportRemoteGetState,), dict(ns, __module__=G.__name__, __qualname__=name))
+            g[name] = c
+    Ep, Svc, Nil = g['ShEndpoint'], g['ShService'], g['ShStateless']
+
+    def view(o):
+        if isinstance(o, (Ep,)):
+            return ['Ep', view(o.opts)]
+        if isinstance(o, Svc):
+            return ['Svc', sorted([k, view(v)] for k, v in o.__dict__.items())]
+        if isinstance(o, Nil):
+            return ['Nil', sorted(o.__dict__)]
+        if isinstance(o, dict):
+            return {k: view(v) for k, v in o.items()}
+        return o
+    cases = []
+    # 1) the child's state dictionary is shared with an attribute of the parent and with a plain container
+    def shared():
+        sh = {'x': 1, 'y': 2}
+        ep = Ep.__new__(Ep)
+        ep.opts = sh
+        svc = Svc.__new__(Svc)
+        svc.__dict__.update(ep=ep, defaults=sh, table={'again': sh}, n=3)
+        return svc
+    cases.append(('shared-state-dict', shared, {'ep': {'x': 9}},
+                  ['Svc', [['defaults', {'x': 1, 'y': 2}], ['ep', ['Ep', {'x': 9, 'y': 2}]], ['n', 3], ['table', {'again': {'x': 1, 'y': 2}}]]]))
+    cases.append(('shared-state-dict', shared, {'n': 4, 'ep': {'z': 0}},
+                  ['Svc', [['defaults', {'x': 1, 'y': 2}], ['ep', ['Ep', {'x': 1, 'y': 2, 'z': 0}]], ['n', 4], ['table', {'again': {'x': 1, 'y': 2}}]]]))
+    # 2) a child with no remote state at all below patched ancestors
+    def stateless_chain():
+        top = Svc.__new__(Svc)
+        mid = Svc.__new__(Svc)
+        mid.__dict__.update(x=1, nil=Nil.__new__(Nil))
+        top.__dict__.update(y=1, mid=mid)
+        return top
+    cases.append(('stateless-child', stateless_chain, {'y': 5, 'mid': {'x': 10}},
+                  ['Svc', [['mid', ['Svc', [['nil', ['Nil', []]], ['x', 10]]]], ['y', 5]]]))
+    cases.append(('stateless-child', stateless_chain, {'mid': {'x': 10}},
+                  ['Svc', [['mid', ['Svc', [['nil', ['Nil', []]], ['x', 10]]]], ['y', 1]]]))
+    for what, mk, patches, want in cases:
+        ctx.count()
+        ctx.distinct(('special', what, repr(patches)))
+        try:
+            got = view(rp.loads(rp.dumps(mk()), extra_kwargs=copy.deepcopy(patches)))
+            after = run_op(lambda: G.canon(rp.loads(rp.dumps([1, 2]))))
+        except BaseException as e:  # noqa
+            got, after = 'raises ' + repr(e)[:120], None
+        ok = got == want and after == ('ok', G.canon([1, 2]))
+        ctx.outcome('special:%s:%s' % (what, 'ok' if ok else 'bad'))
+        if not ok:
+            sig = 'GRAPH/%s/%s' % (what, 'patched-load-raises' if isinstance(got, str) else ('patch-misapplied' if got != want else 'later-load-affected'))
+            sigs[sig] = sigs.get(sig, 0) + 1
+            ctx.violation(sig, {'part': 'special-states', 'what': what, 'patches': patches}, {'loaded': got, 'expected': want, 'plain_load_afterwards': after},
+                          'only the addressed objects differ from the unpatched load', engine='GRAPH')
+
+
 def run(ctx):
     import logging
     logging.disable(logging.CRITICAL)
@@ -388,6 +462,7 @@ def run(ctx):
     only = getattr(ctx, 'only', None)
     if only in (None, 'graph'):
         graph_patch_part(ctx, sigs)
+        special_states_part(ctx, sigs)
     if only in (None, 'hist'):
         history_part(ctx, sigs)
     if only in (None, 'sched'):
@@ -396,6 +471,15 @@ def run(ctx):
 
 
 def replay(ctx, rec):
+    if rec['case'].get('part') == 'special-states':
+        import logging
+        logging.disable(logging.CRITICAL)
+        special_states_part(ctx, {})
+        return
+    _replay(ctx, rec)
+
+
+def _replay(ctx, rec):
     import logging
     logging.disable(logging.CRITICAL)
     import pyworkers.remote_pickle as rp
